@@ -41,11 +41,11 @@ CHECKS = {
             'Trusted: naga computes the WGSL layout (offsets/sizes); rustc const-evaluates assertions and lays out repr(C) as specified; Engine A semantics. The suite pins the reachable rows by snapshots, so the added value is mainly the one-to-one/identity provenance.',
             'DESIGN.md section 3 C05'),
     'C08': ('type-closure exhaustiveness against the naga TypeInner schema + 8-row truth table of the extracted selection predicate + single-producer rule',
-            'Every Handle<Type> field of naga::TypeInner (from the pinned source) is followed unconditionally by the closure function, which inserts every visited handle and is seeded from all global variables; the extracted emission predicate over shape-recognised atoms A/B/C is equivalent to (not A and B) or C on all 8 rows; only TypeInner::Struct yields items; the assembled output has exactly one producer of user struct items, a plain pass over module.types (UniqueArena).',
+            'Every Handle<Type> field of naga::TypeInner (from the pinned source) is followed unconditionally by the closure function, which inserts every visited handle and is seeded from all global variables; the extracted emission predicate is equivalent to (not A and B) or C on all 8 rows, its conditions on the entry points being truth tables over (A: some entry returns the type, B: some entry takes it) obtained by evaluating them on model entry points of all three stages; the set behind C is altered only by the closure's own inserts (closure-only); only TypeInner::Struct yields items; the assembled output has exactly one producer of user struct items, a plain pass over module.types (UniqueArena).',
             'Trusted: naga stores each type once; Engine A semantics.',
             'DESIGN.md section 3 C08'),
     'C09': ('per-row instantiation of the extracted struct item over the full 64-row truth table + option non-interference over the output grammar',
-               "Exhaustive over a finite domain: for all 64 assignments of the six atoms (4 switches, host-shareable, ends-in-runtime-array) the struct item is instantiated (names, members, sizes symbolic) and the derive list, #[repr(C)] and the layout assertions are read from the text and compared with the property's table, including exactly the documented panic rows - whichever helper, early return or template produces them; the host-shareable atom is membership in the closure set of all module-scope variable types (closure discipline rule); no other section of the assembled output (and no condition outside the struct section) reads a WriteOptions field other than the validate/rustfmt gates.",
+               "Exhaustive over a finite domain: for all 64 assignments of the six atoms (4 switches, host-shareable, ends-in-runtime-array) the struct item is instantiated (names, members, sizes symbolic) and the derive list, #[repr(C)] and the layout assertions are read from the text and compared with the property's table, including exactly the documented panic rows - whichever helper, early return or template produces them; for host-shareable rows every entry-point role of the struct is enumerated as well; the host-shareable atom is membership in the closure set of all module-scope variable types, which nothing but the closure alters (closure discipline rule); the options travel between crate functions unchanged (shared MIR pass-through rule); no other section of the assembled output (and no condition outside the struct section) reads a WriteOptions field other than the validate/rustfmt gates.",
                'Trusted: Engine A semantics; derive macros behave as documented; validate/rustfmt gates are C17/C19.',
             'DESIGN.md section 3 C09'),
     'C06': ('output-grammar provenance rules + exhaustive leaf-type table lookup (syn-based abstract interpreter)',
@@ -61,15 +61,15 @@ CHECKS = {
             'Trusted: Engine A\'s abstract semantics of the Rust idioms used; the hand-transliterated oracle (rows cite wgpu-core functions); naga reports types as enumerated. Existence/order of bindings is C04/C11.',
             'DESIGN.md section 3 C02'),
     'C03': ('abstract effect summary of the stage walker (syn-based interpreter): traversal exhaustiveness against the naga Statement/Expression schema, stage propagation, seeding, lookup wiring',
-            'Necessary-and-sufficient structural conditions of the reachability computation, decided on the abstract effect summary of the walker functions (anchored by role): every Block / Handle<Function> field of naga::Statement (enumerated from the pinned naga source) and Expression::CallResult is followed without extra condition, from whole blocks; GlobalVariable updates map[name] by union with the unchanged stage parameter; the driver seeds all entry points with the 3-row stage table, a visited set fresh per entry point, and returns the map; the visibility hole is map.get(name of the same binding) or NONE.',
+            'Necessary-and-sufficient structural conditions of the reachability computation, decided on the abstract effect summary of the walker functions (anchored by role): every Block / Handle<Function> field of naga::Statement (enumerated from the pinned naga source) and Expression::CallResult is followed without extra condition, from whole blocks; GlobalVariable updates map[name] by union with the unchanged stage parameter; the driver seeds all entry points with the 3-row stage table, a visited set fresh per entry point, and returns the map; the visibility hole is map.get(name of the same binding) or NONE. No `return` / `break` inside a traversal loop or the loop over the entry points (early exits are recorded as effects); the stage map is written only by that union update and only inside the recursive walk (resolved MIR, whole crate).',
             'Trusted: naga\'s IR invariant (calls are Statement::Call/Expression::CallResult; global uses are Expression::GlobalVariable); quote_shader_stages on its 8 inputs is pinned by an existing unit test.',
             'DESIGN.md section 3 C03'),
     'C11': ('MIR dominator/guard rules on the group-data function: scan-before-push, density-before-Ok, no panic path (rustc_private driver)',
-            'Structural clauses decided on every path of the function(s) that construct DuplicateBinding and of the top-level function: each push onto a group list is dominated by the false edge of a whole-list scan comparing binding_index, whose true edge returns DuplicateBinding{binding}; list = map entry keyed by the same ResourceBinding.group; loop over all globals unfiltered; the single Ok(groups: BTreeMap) is dominated by a recognised density test keys == 0..len whose other edge returns NonConsecutiveBindGroups; NonConsecutive only after the scan loop; no panic-capable callee / checked arithmetic; error returned unchanged before any emission. Decides the control/data-flow shape, not the interplay with naga\'s validator.',
+            'Structural clauses decided on every path of the function(s) that construct DuplicateBinding and of the top-level function: each push onto a group list is dominated by the false edge of a whole-list scan comparing binding_index, whose true edge returns DuplicateBinding{binding}; list = map entry keyed by the same ResourceBinding.group; loop over all globals unfiltered; the single Ok(groups: BTreeMap) is dominated by a recognised density test keys == 0..len whose other edge returns NonConsecutiveBindGroups; NonConsecutive only after the scan loop; no panic-capable callee / checked arithmetic; error returned unchanged before any emission. The scan predicate is exactly the index comparison; anywhere in the crate no call removes, replaces or adds elements of a binding list or of the group map other than the guarded push (no-other-writer); the emission side (C04 rules: same list, own index, one item set per group key) is adopted. Decides the control/data-flow shape, not the interplay with naga\'s validator.',
             'Trusted: rustc MIR + Instance resolution; naga handles index their own module; recognised density idioms are the two listed (another equivalent form is reported as undecided).',
             'DESIGN.md section 3 C11'),
     'C17': ('MIR dominance/taint rules on the top-level function and the four diagnostic helpers (rustc_private driver)',
-            'Decided on every path: parse_str receives the caller\'s text unchanged; its success edge dominates all generation and validator calls; nothing panic-capable before it or on the error path; ParseError/ValidationError are built from the very error values; with validate=Some the validator\'s success edge dominates all generation calls and nothing runs before the gate; the validator\'s Ok value is dropped, options.validate is read only at the gate, the module is never mutably borrowed (so validation cannot change the output); the emit_* helpers dispatch to naga\'s same-named renderer with the caller\'s source and contain no panic-capable callee.',
+            'Decided on every path: parse_str receives the caller\'s text unchanged; its success edge dominates all generation and validator calls; nothing panic-capable before it or on the error path; ParseError/ValidationError are built from the very error values; with validate=Some the validator\'s success edge dominates all generation calls and nothing runs before the gate; the validator\'s Ok value is dropped, options.validate is read only at the gate, the module is never mutably borrowed (so validation cannot change the output); the validator is created with ValidationFlags::all() and the capability set of the caller's options.validate; the options travel between crate functions unchanged; the emit_* helpers dispatch to naga\'s same-named renderer with the caller\'s source and contain no panic-capable callee.',
             'Trusted: naga front end / validator / diagnostic renderer do not panic (library behaviour, not analysed).',
             'DESIGN.md section 3 C17'),
     'C18': ('whole-crate effect discipline over resolved callees in MIR: hash-order iteration, ambient input, retained state, gated process spawn',
@@ -77,7 +77,7 @@ CHECKS = {
             'Trusted: determinism of naga, syn, prettyplease and of rustfmt itself; no hidden global state in dependencies.',
             'DESIGN.md section 3 C18'),
     'C19': ('MIR rules on the formatter functions: same tokens to both printers, no panic-capable callee, stdout use dominated by success/non-empty/write checks, identity text flow',
-            'Decided on every path of the functions behind the rustfmt-gated call: both printers get the same TokenStream local and nothing else happens in the two arms; no unwrap/expect/indexing/explicit panic; the captured stdout is only used under ExitStatus::success() && non-empty && write outcome checked; the returned text derives only by identity-like operations from the token string or the captured stdout (every fallback is the same program). Timing, slow formatters and pipe deadlocks are not decided (OS scheduling).',
+            'Decided on every path of the functions behind the rustfmt-gated call: both printers get the same TokenStream local and nothing else happens in the two arms; no unwrap/expect/indexing/explicit panic; the captured stdout is only used under ExitStatus::success() && non-empty && write outcome checked; the returned text derives only by identity-like operations from the token string or the captured stdout (every fallback is the same program). The options reach the printer choice unchanged (shared pass-through rule). Timing, slow formatters and pipe deadlocks are not decided (OS scheduling).',
             'Trusted: std::process/OS pipe semantics; rustfmt and prettyplease preserve the token sequence.',
             'DESIGN.md section 3 C19'),
     # id: (technique, level text, level note, design ref)
@@ -129,7 +129,7 @@ def main():
         ],
         'checks': checks,
         'not_applicable': na,
-        'notes': 'Static analysis only: no check executes the generator, the generated code or a solver. Known genuine defects are listed in known_findings.json (status known/fixed). See DESIGN.md.',
+        'notes': 'Static analysis only: no check executes the generator, the generated code or a solver. Known genuine defects are listed in known_findings.json (status known/fixed). Every Engine-A check also applies the shared section-wiring rule (lib/sections.py: each section reaches the assembled output unconditionally, or is empty exactly when it has no content). See DESIGN.md (7.9-7.11 for the latest rounds).',
     }
     json.dump(m, open(os.path.join(V, 'MANIFEST.json'), 'w'), indent=1)
     print('checks:', [c['property_id'] for c in checks], 'n/a:', len(na))
